@@ -39,27 +39,34 @@ func zzIntLitExpr(s string) parser.Expr {
 	return &parser.Literal{Kind: parser.TokenIntLiteral, Value: s}
 }
 
-// zzDeclare lowers one local declaration of the given kind. val is the literal text, ptrTo
-// the variable a pointer-let points to. It returns the expected class of a later use.
-func (l *Lowerer) zzDeclare(kind int, name, val string, ival int64, ptrTo string, ptrIdx uint32, body *[]ir.Statement) (class int, payload int64, err error) {
+// zzDeclStmt builds one local declaration of the given kind. val is the literal text, ptrTo
+// the variable a pointer-let points to.
+func zzDeclStmt(kind int, name, val, ptrTo string) parser.Stmt {
 	switch kind {
 	case zzKindVar:
-		idx := int64(len(l.currentFunc.LocalVars))
-		err = l.lowerStatement(&parser.VarDecl{Name: name, Init: zzIntLitExpr(val)}, body)
-		return zzUseVar, idx, err
+		return &parser.VarDecl{Name: name, Init: zzIntLitExpr(val)}
 	case zzKindLet:
-		err = l.lowerStatement(&parser.ConstDecl{Name: name, Init: zzIntLitExpr(val)}, body)
-		return zzUseLit, ival, err
+		return &parser.ConstDecl{Name: name, Init: zzIntLitExpr(val)}
 	case zzKindPtrLet:
-		err = l.lowerStatement(&parser.ConstDecl{Name: name, Init: &parser.UnaryExpr{Op: parser.TokenAmpersand, Operand: &parser.Ident{Name: ptrTo}}}, body)
-		return zzUsePtr, int64(ptrIdx), err
+		return &parser.ConstDecl{Name: name, Init: &parser.UnaryExpr{Op: parser.TokenAmpersand, Operand: &parser.Ident{Name: ptrTo}}}
 	case zzKindConstAbstract:
-		err = l.lowerStatement(&parser.ConstDecl{Name: name, Init: zzIntLitExpr(val), IsConst: true}, body)
-		return zzUseLit, ival, err
-	default:
-		err = l.lowerStatement(&parser.ConstDecl{Name: name, Type: &parser.NamedType{Name: "i32"}, Init: zzIntLitExpr(val), IsConst: true}, body)
-		return zzUseLit, ival, err
+		return &parser.ConstDecl{Name: name, Init: zzIntLitExpr(val), IsConst: true}
 	}
+	return &parser.ConstDecl{Name: name, Type: &parser.NamedType{Name: "i32"}, Init: zzIntLitExpr(val), IsConst: true}
+}
+
+// zzDeclare lowers one local declaration of the given kind and returns the expected class
+// of a later use.
+func (l *Lowerer) zzDeclare(kind int, name, val string, ival int64, ptrTo string, ptrIdx uint32, body *[]ir.Statement) (class int, payload int64, err error) {
+	idx := int64(len(l.currentFunc.LocalVars))
+	err = l.lowerStatement(zzDeclStmt(kind, name, val, ptrTo), body)
+	switch kind {
+	case zzKindVar:
+		return zzUseVar, idx, err
+	case zzKindPtrLet:
+		return zzUsePtr, int64(ptrIdx), err
+	}
+	return zzUseLit, ival, err
 }
 
 // zzUse lowers a use of name as a value or (for pointer lets) pointer and classifies it.
